@@ -92,6 +92,11 @@ CHECKS = {
             "For each function that survives lifted execution (counted; the rest is listed unencoded with the reason) z3 decides on every path that the returned value satisfies the published law for ALL magnitudes of the arguments in the domain (positive reals in the quick tier; all reals in the thorough tier), magnitude/ceiling results being judged on their argument.",
             "Trusted: z3 nlsat, Sym2SMT, vlib/lift.py stubs incl. Quantity._eval_is_positive and float(); SymPy solve/subs run as part of the code under test. Float literals are read as the short rationals they were written as. Differential/integral/sum laws, sequence/vector/integer parameters and vector-law inverse pairs are outside in this revision.",
             "3.2"),
+    "C09": ("X", "other",
+            "CrossHair symbolic execution (z3) of the real id/name/subscript/clone helpers over symbolic ints, strings and Optional[bool] flags, with refuted-twin vacuity guards; constructors exercised concretely at digit-boundary counter states",
+            "O1-O3 are confirmed over all paths by CrossHair within the stated bounds (counters unbounded, ids < 10^6, strings <= 2-3 chars), which gives the inductive step 'a newly minted name differs from every earlier one' for every creation history in the bound; O4/O5 (constructors use the minted name, no aliasing under subs/diff/solve, printers show display names) are concrete runs and say so.",
+            "Trusted: CrossHair's str/int models, z3, SymPy's rule that differently named symbols are different. The 'never affects another' clause is reduced to name distinctness; Symbolic wrappers are outside the property's list.",
+            "3.9"),
 }
 
 NOT_APPLICABLE = {
